@@ -5,6 +5,7 @@ import (
 
 	"github.com/jsightapi/jsight-schema-core/bytes"
 	"github.com/jsightapi/jsight-schema-core/errs"
+	"github.com/jsightapi/jsight-schema-core/fs"
 	"github.com/jsightapi/jsight-schema-core/json"
 	"github.com/jsightapi/jsight-schema-core/kit"
 	"github.com/jsightapi/jsight-schema-core/lexeme"
@@ -83,6 +84,14 @@ func typeFileName(t ischema.Type) string {
 	return t.RootFile.Name()
 }
 
+// ownFile returns the file with the text of the type itself.
+func ownFile(typ ischema.Type) *fs.File {
+	if typ.Schema == nil || typ.Schema.RootNode() == nil {
+		return nil
+	}
+	return typ.Schema.RootNode().BasisLexEventOfSchemaForNode().File()
+}
+
 func (c *checkSchema) checkType(name string, typ ischema.Type, ss map[string]ischema.Type) {
 	defer func() {
 		r := recover()
@@ -92,8 +101,13 @@ func (c *checkSchema) checkType(name string, typ ischema.Type, ss map[string]isc
 
 		// Return an error with the full set of bytes of the root schema.
 		if jErr, ok := r.(kit.JSchemaError); ok {
-			jErr.SetFile(typ.RootFile)
-			jErr.SetIndex(bytes.Index(jErr.Index()) + typ.Begin)
+			// The position is moved into the root file only when it lies in the
+			// type's own text. A node inherited through allOf keeps the position
+			// in the text it was written in: its index means nothing elsewhere.
+			if own := ownFile(typ); own == nil || jErr.File() == nil || jErr.File() == own {
+				jErr.SetFile(typ.RootFile)
+				jErr.SetIndex(bytes.Index(jErr.Index()) + typ.Begin)
+			}
 			if !isUnnamedTypeName(name) {
 				jErr.SetIncorrectUserType(name)
 			}
